@@ -1,7 +1,7 @@
 package main
 
 // Dependency summaries for the x/bitcoin withdrawal path (C05) and the voted messages (C01).
-// See /var/tmp/ag_wd/NOTES.md, section "assumptions / trusted contracts".
+// See /verif/notes_ag_wd.md, section "assumptions / trusted contracts".
 
 import (
 	"go/types"
